@@ -129,11 +129,11 @@ theorem addEvent_length (c : Cls) (ev : EvRef) : c.trans.length ≤ (addEvent c 
     cases tl with
     | none => simp only [addEvent]; split <;> exact Nat.le_refl _
     | some idxs =>
-      simp only [addEvent]
-      by_cases he : idxs.isEmpty = true
-      · simp only [he, if_true]; split <;> exact Nat.le_refl _
-      · simp only [he]
+      cases hE : idxs.isEmpty
+      · simp only [addEvent, hE, Bool.false_eq_true, ↓reduceIte]
         split <;> exact onEventDefined_length _ _ _
+      · simp only [addEvent, hE, ↓reduceIte]
+        split <;> exact Nat.le_refl _
 
 theorem addEvent_spl (c : Cls) (ev : EvRef) (hl : lowEv n ev) (hn : n < c.trans.length) :
     addEvent (spl n X c) ev = spl n X (addEvent c ev) := by
@@ -147,14 +147,13 @@ theorem addEvent_spl (c : Cls) (ev : EvRef) (hl : lowEv n ev) (hn : n < c.trans.
       simp only [addEvent, spl_events]
       by_cases h : c.events.contains id = true <;> simp only [h] <;> rfl
     | some idxs =>
-      simp only [addEvent]
-      by_cases he : idxs.isEmpty = true
-      · simp only [he, if_true, spl_events]
-        by_cases h : c.events.contains id = true <;> simp only [h] <;> rfl
-      · simp only [he]
+      cases hE : idxs.isEmpty
+      · simp only [addEvent, hE, Bool.false_eq_true, ↓reduceIte]
         rw [onEventDefined_spl c id idxs hl hn]
         simp only [spl_events]
         by_cases h : (onEventDefined c id idxs).events.contains id = true <;> simp only [h] <;> rfl
+      · simp only [addEvent, hE, ↓reduceIte, spl_events]
+        by_cases h : c.events.contains id = true <;> simp only [h] <;> rfl
 
 theorem foldl_addEvent_length (evs : List EvRef) (c : Cls) :
     c.trans.length ≤ (evs.foldl addEvent c).trans.length := by
